@@ -213,7 +213,7 @@ what was observed.  (Soundness does not depend on the closure's fuel; fuel only 
 completeness, i.e. spurious rejections, which would be reported as disagreements.) -/
 theorem accept_sound {v : Variant} {tr : List Ev} {mf : Sim} (h : accept v tr = (none, mf)) :
     mf.states ≠ [] ∧
-    ∀ t ∈ mf.states, ∃ s0, TauStar v [] init s0 ∧ TraceRun v {} s0 tr t ∧ Reach v init t := by
+    ∀ t ∈ mf.states, ∃ s0, TauStar v {} init s0 ∧ TraceRun v {} s0 tr t ∧ Reach v init t := by
   simp only [accept] at h
   constructor
   · refine acceptFrom_nonempty _ _ _ _ h ?_
